@@ -3,6 +3,7 @@ ENGINES = [
     {"name": "runner", "path": "vlib/runner.py", "serves_properties": ["C01"], "kind_free_text": "Hypothesis driver: seeded workers, collect-then-shrink per root-cause key, plain-JSON replay, evidence"},
     {"name": "E1 refcodec", "path": "vlib/refcodec.py", "serves_properties": ["C01","C02","C03"], "kind_free_text": "independent RFC 7252 section 3 codec used as differential oracle and by the raw peers"},
     {"name": "E2 simnet", "path": "vlib/simnet.py", "serves_properties": ["C02", "C03", "C04", "C05", "C06", "C07", "C08", "C09", "C10", "C14", "C18"], "kind_free_text": "virtual-clock asyncio loop + simulated datagram network under the real aiocoap stack; scripted raw peers; per-datagram fates"},
+    {"name": "E3 ref8323", "path": "vlib/ref8323.py", "serves_properties": ["C15"], "kind_free_text": "independent RFC 8323 section 3.2 framer/serialiser"},
 ]
 ALL = ["C%02d" % i for i in range(1, 21)]
 CHECKS = [
@@ -93,6 +94,14 @@ CHECKS += [
         "technique": "model-based (stateful) property testing: histories of symbolic block requests from several clients with idle times on a virtual clock, interpreted against a reference model of spool and cache with three-zone expiry; exhaustive Block2 grid",
         "text": "Each step is chosen relative to the reference model's state for its key (next / restart / repeat / skip / earlier / another key's next block), the real server's answer is compared with the model after every step (handler invocations and bodies, 2.31 / 4.08 / 4.00, exact Block2 slices, never 5.xx), and state lifetime is checked in three zones around MAX_TRANSMIT_WAIT. The Block2 follow-up grid (length x sizes x block number) is enumerated completely; histories are sampled.",
         "note": "trusted: the reference model in checks/c06.py, vlib/simnet.py, refcodec",
+    },
+]
+CHECKS += [
+    {
+        "id": "C15", "engine": "E3 stream harness + ref8323 + Hypothesis + exhaustive sweeps", "level": "exploration",
+        "technique": "property-based differential and metamorphic testing: generated frame streams x generated chunkings (incl. byte-by-byte) through a real TcpConnection on a fake transport vs an independent RFC 8323 framer; byte-level mutation; exhaustive length codec sweep",
+        "text": "Streams of frames (boundary body sizes, CSM position, signalling messages, malformed frames) are cut in generated ways and fed to the real connection object; a reference endpoint built on an independent framer decides the expected dispatch log, Pongs and Abort/close outcome, for each chunking. Serialisation is compared byte for byte; the length codec is enumerated; pending requests are checked against Release/Abort/connection loss with a real TokenManager. Sampled streams, exhaustive codec.",
+        "note": "trusted: vlib/ref8323.py, vlib/refcodec.py, the fake stream transport; don't-care classes listed in the evidence assumptions",
     },
 ]
 claimed = {c["id"] for c in CHECKS}
